@@ -17,9 +17,9 @@ VERIF = os.path.dirname(os.path.dirname(os.path.dirname(os.path.abspath(__file__
 
 def _bounds(tier, seed):
     k = 16 if tier == "quick" else 48
-    seeds = list(range(k))
-    if seed:
-        seeds += [seed * k + i for i in range(4 if tier == "quick" else 16)]
+    extra = 4 if tier == "quick" else 16
+    # VERIF_SEED swaps the last `extra` seeds of the range for a block of its own, so a run always uses exactly k interpreters (one per core in the quick tier)
+    seeds = list(range(k)) if not seed else list(range(k - extra)) + [seed * k + i for i in range(extra)]
     return dict(seeds=seeds, depth=1 if tier == "quick" else 2)
 
 
